@@ -13,6 +13,7 @@ HYPOTHESES = ['HB4_hash']
 NOT_YET_PROVED = []
 ASSUMPTIONS = []
 nontrivial = nontrivial_default
+EXTRA_MODULES = {"Props.TieSwu": "PyEcc.Tie.", "Props.TieCofactor": "PyEcc.Tie."}
 P = O.BLS_P
 CHUNK = 8
 
@@ -134,6 +135,9 @@ def cases(rng, tier):
     for _ in range(n):
         cs.append(_h2c_case("hash_to_g2", "sha256", rng.choice(msgs), rng.choice(dsts)))
         cs.append(_h2c_case("hash_to_g1", "sha256", rng.choice(msgs), rng.choice(dsts)))
+    for hname in ("sha384", "sha1", "sha224", "sha3_384"):
+        cs.append(_h2c_case("hash_to_g2", hname, b"abc", dsts[0]))
+        cs.append(_h2c_case("hash_to_g1", hname, b"abc", dsts[0]))
     cs.append(_h2c_case("hash_to_g2", "sha512", b"abc", dsts[0]))
     cs.append(_h2c_case("hash_to_g2", "sha3_256", b"abc", dsts[0]))
     cs.append(_h2c_case("hash_to_g1", "blake2b", b"abc", dsts[0]))
@@ -281,6 +285,9 @@ def predicates(rng, tier, only=None):
         d = bytes(rng.randrange(256) for _ in range(rng.choice([0, 1, 43, 255])))
         ps.append(Pred("hash-to-curve", hash_pred, (2, m, d, "sha256")))
         ps.append(Pred("hash-to-curve", hash_pred, (1, m, d, "sha256")))
+    for hname in ("sha384", "sha1", "sha224"):
+        ps.append(Pred("hash-to-curve", hash_pred, (2, b"abc", b"tag", hname)))
+        ps.append(Pred("hash-to-curve", hash_pred, (1, b"abc", b"tag", hname)))
     ps.append(Pred("hash-to-curve", hash_pred, (2, b"abc", b"tag", "sha512")))
     ps.append(Pred("hash-to-curve", hash_pred, (1, b"abc", b"tag", "sha3_256")))
     if only:
